@@ -282,6 +282,41 @@ def d2_prior(ctx, rule='C19-D2'):
     ctx.check(rule, key + '#values', not wrong, 'every printable value(error) string is read back as (value, error scaled by the decimals of the value); %d strings evaluated' % count,
               'the prior string %r is read as %s, expected %s%s' % (wrong[0] + ((' (and %d more strings)' % (len(wrong) - 1)) if len(wrong) > 1 else '',)) if wrong else '', m.loc(f))
     ctx.info['prior_strings_evaluated'] = count
+    # strings printed with the flags '', '+' and ' ' are accepted as priors: _construct_prior_obs is evaluated with stand-ins for Obs /
+    # cov_Obs on such strings; the recorded call must be cov_Obs(value, error^2, ...)
+    c_ = m.func('_construct_prior_obs')
+    if not any(isinstance(x, (ast.Import, ast.ImportFrom, ast.Global, ast.While, ast.With, ast.Lambda)) for x in walk(c_)):
+        rec = []
+
+        class _ObsStub:
+            pass
+
+        class _NP:
+            class random:
+                @staticmethod
+                def randint(*a, **k):
+                    return 7
+        try:
+            g2 = _copy.deepcopy(c_)
+            g2.decorator_list = []
+            ns2 = {'__builtins__': dict(safe, format=format), 'Obs': _ObsStub, 'cov_Obs': lambda *a, **k: rec.append((a, k)) or 'prior', 'np': _NP, 're': _re, '_extract_val_and_dval': fn}
+            exec(compile(ast.fix_missing_locations(ast.Module(body=[_copy.deepcopy(c) for c in consts] + [g2], type_ignores=[])), '<prior-obs>', 'exec'), ns2)
+            wrong2 = []
+            for st_, wv_, we_ in (('0.348(12)', 0.348, 0.012), ('+0.348(12)', 0.348, 0.012), (' 0.348(12)', 0.348, 0.012), ('-1.5(3)', -1.5, 0.3), (' 12(3)', 12.0, 3.0), ('+2(1)', 2.0, 1.0), ('1.5(1.2)', 1.5, 1.2)):
+                del rec[:]
+                try:
+                    ns2[c_.name](st_, 0)
+                except NameError:
+                    raise
+                except Exception as ex_:
+                    wrong2.append((st_, 'raised %r' % ex_))
+                    continue
+                if len(rec) != 1 or len(rec[0][0]) < 2 or abs(rec[0][0][0] - wv_) > 1e-12 or abs(rec[0][0][1] - we_ ** 2) > 1e-12:
+                    wrong2.append((st_, 'builds %r' % (rec,)))
+            ctx.check(rule, 'fits.py:_construct_prior_obs#printed-strings-accepted', not wrong2, "strings as printed with the flags '', '+', ' ' become priors with exactly that value and error",
+                      'the printed string %r as a prior: %s' % wrong2[0] if wrong2 else '', m.loc(c_))
+        except Exception as ex_:
+            ctx.unrec(rule, 'fits.py:_construct_prior_obs#printed-strings-accepted', 'cannot evaluate: %r' % ex_, m.loc(c_))
     c = m.func('_construct_prior_obs')
     cc = [x for x in walk(c) if isinstance(x, ast.Call) and call_name(x) == 'cov_Obs']
     ok = len(cc) == 1 and unparse(cc[0].args[0]) == 'loc_val' and unparse(cc[0].args[1]) == 'loc_dval ** 2'
